@@ -281,6 +281,7 @@ func (e *Eng) encodeLemma(lm *Lemma) (res *FnResult) {
 		c.assume("true", f.evalClause(se, rq))
 	}
 	c.oblige(Item{Guard: "true", Formula: "false", Name: res.Key + "/cover:requires", Class: "cover", Expect: "sat", Pos: token.Position{Filename: lm.File, Line: lm.Line}, Text: "lemma hypotheses are satisfiable"})
+	se.goal = true
 	for i, en := range lm.Ensures {
 		label := en.Label
 		if label == "" {
